@@ -402,11 +402,57 @@ def close(a: float, b: float) -> bool:
 
 
 # =============================================================================
+# shrinking (first occurrence of each signature only)
+# =============================================================================
+def subtrees(n):
+    yield n
+    for c in n[1:]:
+        if isinstance(c, tuple):
+            yield from subtrees(c)
+
+
+def size(n) -> int:
+    return 1 + sum(size(c) for c in n[1:] if isinstance(c, tuple))
+
+
+def shrink_lines(text: str, still_fails) -> str:
+    """greedy statement deletion: drop one line (or one whole gate definition) at a time while the predicate
+    on the program text keeps holding"""
+    lines = text.rstrip('\n').split('\n')
+    changed = True
+    budget = 200
+    while changed and budget > 0:
+        changed = False
+        i = 2
+        while i < len(lines) and budget > 0:
+            j = i + 1
+            if lines[i].startswith('gate '):
+                while j < len(lines) and lines[j - 1].strip() != '}':
+                    j += 1
+            elif lines[i].startswith(('qreg', 'creg')) or lines[i].strip() == '}':
+                i += 1
+                continue
+            cand = lines[:i] + lines[j:]
+            budget -= 1
+            try:
+                ok = still_fails('\n'.join(cand) + '\n')
+            except Exception:  # noqa
+                ok = False
+            if ok:
+                lines = cand
+                changed = True
+            else:
+                i = j
+    return '\n'.join(lines) + '\n'
+
+
+# =============================================================================
 # checks
 # =============================================================================
 class Checker:
     def __init__(self, ctx: vf.Ctx, I: Impl):
         self.ctx, self.I = ctx, I
+        self.shrunk: set = set()
         self.version_votes = {'current': 0, 'fixed': 0, 'both': 0, 'neither': 0}
         self.pending = []      # deferred comparisons: (fn, args)
 
@@ -425,6 +471,31 @@ class Checker:
                                       '(flattening drops parentheses)')
         return self.ctx.violation(dict(call='eval_exp', symptom='wrong-value'), case, expected, observed,
                                   'parameter expression evaluates to a different value than the program text denotes')
+
+    def shrink_expr(self, case, sem, expected, obs):
+        """smallest sub-expression (printed on its own) that the implementation still mis-evaluates"""
+        key = ('expr', isinstance(obs, str))
+        if key in self.shrunk:
+            return case, sem, expected, obs
+        self.shrunk.add(key)
+        import random
+        best = (size(sem), case, sem, expected, obs)
+        for sub in subtrees(sem):
+            if size(sub) >= best[0]:
+                continue
+            try:
+                exp = fval(sub)
+                text = pr(sub, 1, random.Random(0), sp=False)
+            except Exception:  # noqa
+                continue
+            try:
+                got = float(self.I.V.eval_exp(self.I.parse_exp(text)))
+                o = got
+            except Exception as e:  # noqa
+                got, o = None, 'raised ' + type(e).__name__ + ': ' + str(e)[:80]
+            if (got is None or not close(got, exp)) and isinstance(o, str) == isinstance(obs, str):
+                best = (size(sub), dict(kind='expr', text=text, sem=sub, shrunk_from=case['text']), sub, exp, o)
+        return best[1:]
 
     # ---- one generated expression -----------------------------------------------
     def expression(self, M: Model, text: str, sem, expected: float, key):
@@ -490,7 +561,8 @@ class Checker:
                           kind='correspondence', corr='C17_exp_faithful instance')
         # (5) property oracle on the implementation
         if d['val'] is None or not close(d['val'], d['expected']):
-            self.exp_violation(case, d['sem'], d['expected'], d['obs'], q['e0'] == q['den'])
+            case, sem, expected, obs = self.shrink_expr(case, d['sem'], d['expected'], d['obs'])
+            self.exp_violation(case, sem, expected, obs, (q['e0'] == q['den']) if sem is d['sem'] else False if '(' in case['text'] else None)
         nontrivial = q['e0'] != q['den'] or has_kind(d['sem'], ('neg', 'pow', 'fn'))
         ctx.case(d['key'], nontrivial=nontrivial)
         if q['e0'] != q['den']:
@@ -1106,6 +1178,22 @@ def check_program(ck: Checker, M: Model, text: str, meta, key, compare_qiskit=Tr
             ctx.violation(dict(call='eval_exp', symptom='parentheses-dropped'), case, 'program decodes', msg,
                           'a parameter expression raises because its parentheses were dropped by the flattening')
             return
+        if 'rejects' not in ck.shrunk:
+            ck.shrunk.add('rejects')
+
+            def rejected(t):
+                try:
+                    I.L.decode(t)
+                    return False
+                except Exception as e2:  # noqa
+                    ok_q = True
+                    try:
+                        qiskit_unitary(I, t)
+                    except Exception:  # noqa
+                        ok_q = False
+                    return ok_q and type(e2) is type(err) and not _paren_matters(ck, t, need_qiskit=False)
+            small = shrink_lines(text, rejected)
+            case = dict(kind='program', text=small, shrunk_from=text) if small != text else case
         ctx.violation(dict(call='decode', symptom='rejects-valid-program'), case, 'program decodes', msg,
                       'decoder raises on a program of the supported subset')
         return
@@ -1129,6 +1217,20 @@ def check_program(ck: Checker, M: Model, text: str, meta, key, compare_qiskit=Tr
         # classify with the model: is this the parenthesis defect?
         sig = dict(call='eval_exp', symptom='parentheses-dropped') if _paren_matters(ck, text) else \
             dict(call='decode', symptom='unitary-differs-from-qiskit')
+        if vf.canon(sig) not in ck.shrunk:
+            ck.shrunk.add(vf.canon(sig))
+
+            def differs(t):
+                c = I.L.decode(t)
+                return phase_dist(I.np, unitary_of(I, c), qiskit_unitary(I, t)) > 1e-7 and \
+                    (_paren_matters(ck, t) == (sig['symptom'] == 'parentheses-dropped'))
+            small = shrink_lines(text, differs)
+            if small != text:
+                case = dict(kind='program', text=small, shrunk_from=text)
+                try:
+                    d = phase_dist(I.np, unitary_of(I, I.L.decode(small)), qiskit_unitary(I, small))
+                except Exception:  # noqa
+                    pass
         ctx.violation(sig, case, 'unitary equal to qiskit.qasm2.loads up to bit order and global phase',
                       f'max entry difference {d:.3e}', 'decoded circuit implements a different unitary than Qiskit assigns to the text')
 
@@ -1194,10 +1296,31 @@ def ops_per_qubit(circ):
     return seqs
 
 
-def check_roundtrip(ck: Checker, circ, key, label=None):
+def check_roundtrip(ck: Checker, circ, key, label=None, shrinking=False):
     ctx, I = ck.ctx, ck.I
     np = I.np
-    ctx.case(key, nontrivial=circ.num_operations > 0)
+    if not shrinking:
+        ctx.case(key, nontrivial=circ.num_operations > 0)
+        # dry run on a scratch context to learn whether (and how) this circuit fails; then shrink it
+        sig = rt_failure(I, circ)
+        if sig is not None and circ.num_operations > 1 and ('rt', sig) not in ck.shrunk:
+            ck.shrunk.add(('rt', sig))
+            ops = list(circ)
+            changed = True
+            while changed and len(ops) > 1:
+                changed = False
+                for i in range(len(ops)):
+                    c2 = I.Circuit(circ.num_qudits)
+                    for o in ops[:i] + ops[i + 1:]:
+                        c2.append(o)
+                    if rt_failure(I, c2) == sig:
+                        ops = ops[:i] + ops[i + 1:]
+                        changed = True
+                        break
+            c2 = I.Circuit(circ.num_qudits)
+            for o in ops:
+                c2.append(o)
+            circ = c2
     try:
         text = I.L.encode(circ)
     except Exception as e:  # noqa
@@ -1241,6 +1364,30 @@ def check_roundtrip(ck: Checker, circ, key, label=None):
     return text
 
 
+def rt_failure(I: Impl, circ):
+    """coarse classification of a round-trip failure (None = passes), used for shrinking"""
+    np = I.np
+    try:
+        text = I.L.encode(circ)
+    except Exception as e:  # noqa
+        return 'encode:' + type(e).__name__
+    try:
+        back = I.L.decode(text)
+    except Exception as e:  # noqa
+        return 'decode:' + type(e).__name__ + ':' + str(e)[:30]
+    try:
+        U, W = np.array(circ.get_unitary().numpy), np.array(back.get_unitary().numpy)
+    except Exception:  # noqa
+        return None
+    if U.shape != W.shape or float(np.max(np.abs(U - W))) > 1e-9:
+        return 'unitary'
+    a, b = ops_per_qubit(circ), ops_per_qubit(back)
+    for sa, sb in zip(a, b):
+        if len(sa) != len(sb) or any(tuple(x.location) != tuple(y.location) for x, y in zip(sa, sb)):
+            return 'order'
+    return None
+
+
 def _spelling(g):
     try:
         return g.qasm_name
@@ -1253,11 +1400,20 @@ def _ops_repr(circ):
             for op in circ]
 
 
+_T_CACHE = []
+
+
+def tables():
+    if not _T_CACHE:
+        import gen_qasm_table as G
+        _T_CACHE.append(G.collect())
+    return _T_CACHE[0]
+
+
 def rebuild(I: Impl, case):
     """circuit of a stored round-trip / translator case: gates are looked up by their QASM spelling among the
     library gates (None if an operation is not a plain library gate, e.g. a CircuitGate)"""
-    import gen_qasm_table as G
-    T = G.collect()
+    T = tables()
     by = {}
     for g in T['lib']:
         if g['spelling'] is not None:
@@ -1288,6 +1444,26 @@ def gen_rt_circuit(I: Impl, rng, pool, n, nops):
 # =============================================================================
 # run
 # =============================================================================
+def enum_sem(depth: int, leaves, binops, unops):
+    """all semantic trees of the given depth bound over a small alphabet"""
+    if depth == 0:
+        return list(leaves)
+    sub = enum_sem(depth - 1, leaves, binops, unops)
+    out = list(sub)
+    for a in sub:
+        for u in unops:
+            out.append((u, a) if u in ('neg', 'paren') else ('fn', u, a))
+        for b in sub:
+            for o in binops:
+                out.append((o, a, b))
+    seen, res = set(), []
+    for t in out:
+        if t not in seen:
+            seen.add(t)
+            res.append(t)
+    return res
+
+
 def directed_expressions():
     """semantic trees for the witnesses of the theorems / design findings"""
     n = lambda s: ('num', s)  # noqa
@@ -1334,9 +1510,8 @@ def run(ctx: vf.Ctx):
     ctx.uses_translators = BUILD['translators']
     ctx.build(**BUILD)
     I = Impl()
-    import gen_qasm_table as G
     try:
-        T = G.collect()
+        T = tables()
     except Exception as e:  # noqa
         ctx.broken_obligation('translator gen_qasm_table cannot collect the live tables', repr(e))
         T = None
@@ -1366,6 +1541,15 @@ def run(ctx: vf.Ctx):
         ctx.cov['library_gates'] = len(T['lib'])
         ctx.cov['not_default_constructible'] = T['not_constructible']
 
+    import time as _t
+    phase = {}
+    t0 = _t.time()
+
+    def lap(name):
+        nonlocal t0
+        phase[name] = round(_t.time() - t0, 1)
+        t0 = _t.time()
+    ctx.cov['phase_s'] = phase
     M = Model()
     # ---- corpus ---------------------------------------------------------------
     cdir = vf.ROOT / 'corpus' / 'C17'
@@ -1387,8 +1571,28 @@ def run(ctx: vf.Ctx):
         text = pr(sem, 1, rng, sp=False)
         ck.expression(M, text, sem, v, ('expr', text))
         ctx.count('expr_directed')
-    nexp = ctx.n(3000, 30000)
+    # exhaustive: every tree of depth <= 2 over a small alphabet (quick: 2 leaves, 4 binary operators)
+    if ctx.quick():
+        small = enum_sem(2, [('num', '2'), ('pi',)], ['add', 'sub', 'mul', 'pow'], ['neg'])
+    else:
+        small = enum_sem(2, [('num', '2'), ('num', '0.5'), ('pi',)], ['add', 'sub', 'mul', 'div', 'pow'], ['neg', 'paren', 'sin'])
     seen = set()
+    import random as _r
+    for sem in small:
+        try:
+            v = fval(sem)
+        except (Reject, OverflowError, ValueError, ZeroDivisionError):
+            continue
+        if isinstance(v, complex):
+            continue
+        text = pr(sem, 1, _r.Random(0), sp=False)
+        if text in seen:
+            continue
+        seen.add(text)
+        ck.expression(M, text, sem, v, ('expr', text))
+        ctx.count('expr_exhaustive_depth2')
+    ctx.cov['exhaustive_alphabet'] = 'depth<=2; quick: leaves {2, pi}, + - * ^, unary minus; thorough: leaves {2, 0.5, pi}, + - * / ^, unary minus, redundant parentheses, sin'
+    nexp = ctx.n(3000, 30000) + len(seen)
     i = -1
     while len(seen) < nexp:
         i += 1
@@ -1402,6 +1606,7 @@ def run(ctx: vf.Ctx):
         ctx.count('expr_depth<=%d' % min(4, _depth(sem)))
         if i < 3:
             ctx.sample(dict(expression=text, value=v))
+    lap('expressions')
     # ---- programs -----------------------------------------------------------------
     for label, text in DIRECTED_PROGRAMS:
         check_program(ck, M, text, dict(has_reset='reset' in text), ('prog', text))
@@ -1424,6 +1629,7 @@ def run(ctx: vf.Ctx):
         check_program(ck, M, text, meta, ('prog', text))
         ctx.count('program_paren_free')
 
+    lap('programs')
     # ---- model answers ----------------------------------------------------------------
     try:
         M.run()
@@ -1440,6 +1646,7 @@ def run(ctx: vf.Ctx):
     if impl_version == 'inconsistent':
         ctx.broken_obligation('the implementation matches QExp.flatten on some trees and QExp.flatten_fixed on others', str(v))
 
+    lap('model')
     # ---- (i) round trips ------------------------------------------------------------------
     if T is not None:
         pool = rt_gate_pool(I, T)
@@ -1479,6 +1686,7 @@ def run(ctx: vf.Ctx):
         c.append_gate(CircuitGate(inner), 0, [0.3])
         check_roundtrip(ck, c, ('rt-frozen-in-circuitgate',), label='U1q')
 
+    lap('roundtrips')
     # ---- directed: u0 ------------------------------------------------------------------------
     u0 = 'OPENQASM 2.0;\ninclude "qelib1.inc";\nqreg q[1];\nu0(1) q[0];\n'
     try:
@@ -1490,6 +1698,7 @@ def run(ctx: vf.Ctx):
 
     # ---- (iii) translators ---------------------------------------------------------------------
     check_translators(ck, ctx.n(25, 300))
+    lap('translators')
 
 
 def _depth(n) -> int:
